@@ -382,7 +382,38 @@ def stage_cli(ctx, inputs, outdir, K, K_many):
                 i["file_run"] = {"rc": r[0], "stdout": r[1], "file": r[2], "stderr": r[3], "outpath": outpath}
             else:
                 i["runs"].append({"rc": r[0], "stdout": r[1], "stderr": r[3]})
-    return len(tasks)
+    # second pass: -o onto an existing file of EXACTLY the length of the output but with other content (what regenerating
+    # after a small edit of the manifest looks like): afterwards the file holds the output (seed C20-11 skipped the write
+    # when the lengths were equal)
+    same = []
+    for i in inputs:
+        fr = i.get("file_run")
+        i["samelen_run"] = None
+        if fr and fr["file"] and not i["special"].get("uncreatable"):
+            same.append((i, os.path.join(outdir, i["id"] + ".same.rs"), "0"))
+
+    def one_same(t):
+        i, outpath, bt = t
+        with open(outpath, "wb") as f:
+            f.write(b"/" * len(i["file_run"]["file"]))
+        cmd = [CLI, "-m", i["cli_path"], "-d", "Dev", "-o", outpath]
+        e = dict(os.environ)
+        e["RUST_BACKTRACE"] = bt
+        try:
+            p = subprocess.run(cmd, cwd=i["cwd"], env=e, stdout=subprocess.PIPE, stderr=subprocess.PIPE, timeout=120)
+            rc = p.returncode
+        except subprocess.TimeoutExpired:
+            rc = 124
+        fc = open(outpath, "rb").read() if os.path.exists(outpath) else None
+        try:
+            os.remove(outpath)
+        except OSError:
+            pass
+        return i, rc, fc
+    with concurrent.futures.ThreadPoolExecutor(max_workers=vlib.NCPU) as ex:
+        for i, rc, fc in ex.map(one_same, same):
+            i["samelen_run"] = {"rc": rc, "file": fc}
+    return len(tasks) + len(same)
 
 
 def stage_cli_model(ctx, inputs, lib):
@@ -581,6 +612,13 @@ def compare(ctx, inputs, lib, models, d13_open, stats):
                            % (len(pr["file"] or b""), len(fr["file"] or b""), (pr["file"] or b"").endswith(STALE[-40:])))
             elif not mf["writes"] and not pr["intact"]:
                 bad.append("-o onto an existing file: model writes nothing, but the existing file was modified (%d bytes left)" % len(pr["file"] or b""))
+        sr = i.get("samelen_run")
+        if sr is not None and fr is not None:
+            if sr["rc"] != fr["rc"]:
+                bad.append(f"-o onto an existing file of the same length: exit status {sr['rc']}, onto a fresh path {fr['rc']}")
+            elif sr["file"] != fr["file"]:
+                bad.append("-o onto an existing file of exactly the output's length: the file does not hold the output afterwards "
+                           "(old content kept: %s)" % (sr["file"] == b"/" * len(fr["file"] or b"")))
         # ---- property text directly: non-zero exactly when the library reports an error (environment permitting)
         if l and l["status"] == "out":
             txt = l["texts"][0].decode(errors="replace")
